@@ -83,54 +83,59 @@ def pairsTree (o : ZAddOpts) : ZT.T → List (Int × Bytes) → ZT.T
 | t, [] => t
 | t, (s, m) :: rest => pairsTree o (pairTree o t s m) rest
 
-theorem zaddLoop_counts (o : ZAddOpts) (hi : o.incr = false) (ps : List (Int × Bytes)) : ∀ (a : ZAcc),
-    (zaddLoop o a ps).added = a.added + (countPairs o a.t ps).1 ∧
-    (zaddLoop o a ps).updated = a.updated + (countPairs o a.t ps).2 ∧
-    (zaddLoop o a ps).t = pairsTree o a.t ps := by
+theorem zaddLoop_counts' (o : ZAddOpts) (hi : o.incr = false) (ps : List (Int × Bytes)) : ∀ (t : ZT.T) (ad up : Nat) (last : ZOut),
+    (zaddLoop o ⟨t, ad, up, last⟩ ps).added = ad + (countPairs o t ps).1 ∧
+    (zaddLoop o ⟨t, ad, up, last⟩ ps).updated = up + (countPairs o t ps).2 ∧
+    (zaddLoop o ⟨t, ad, up, last⟩ ps).t = pairsTree o t ps := by
   induction ps with
-  | nil => intro a; simp [zaddLoop, countPairs, pairsTree]
+  | nil => intro t ad up last; simp [zaddLoop, countPairs, pairsTree]
   | cons p ps ih =>
-    intro a
+    intro t ad up last
     obtain ⟨s, m⟩ := p
-    obtain ⟨h1, h2, h3⟩ := zaddOne_spec o a.t s m hi
+    obtain ⟨h1, h2, h3⟩ := zaddOne_spec o t s m hi
     simp only [zaddLoop, countPairs, pairsTree]
     split
     · rename_i s' t' heq
       rw [heq] at h1 h2 h3
       simp only [ZOut.isAdded, ZOut.isUpdated] at h1 h2
-      obtain ⟨i1, i2, i3⟩ := ih { t := t', added := a.added + 1, updated := a.updated, last := .added s' }
+      dsimp only at h3
+      obtain ⟨i1, i2, i3⟩ := ih t' (ad + 1) up (.added s')
       rw [i1, i2, i3]
-      dsimp only at h3 ⊢
-      rw [← h1, ← h2]
       unfold pairTree
-      rw [← h3]
+      rw [← h3, ← h1, ← h2]
       simp only [Bool.toNat_true, Bool.toNat_false]
-      trace_state
-      omega
+      exact ⟨by omega, by omega, trivial⟩
     · rename_i s' t' heq
       rw [heq] at h1 h2 h3
       simp only [ZOut.isAdded, ZOut.isUpdated] at h1 h2
-      obtain ⟨i1, i2, i3⟩ := ih { t := t', added := a.added, updated := a.updated + 1, last := .updated s' }
+      dsimp only at h3
+      obtain ⟨i1, i2, i3⟩ := ih t' ad (up + 1) (.updated s')
       rw [i1, i2, i3]
-      dsimp only at h3 ⊢
-      rw [← h1, ← h2]
       unfold pairTree
-      rw [← h3]
+      rw [← h3, ← h1, ← h2]
       simp only [Bool.toNat_true, Bool.toNat_false]
-      omega
+      exact ⟨by omega, by omega, trivial⟩
     · rename_i out t' hna hnu heq
       rw [heq] at h1 h2 h3
-      have e1 : pairAdds o a.t m = false := by
+      dsimp only at h1 h2 h3
+      have e1 : pairAdds o t m = false := by
         rw [← h1]; cases out <;> simp_all [ZOut.isAdded]
-      have e2 : pairChanges o a.t s m = false := by
+      have e2 : pairChanges o t s m = false := by
         rw [← h2]; cases out <;> simp_all [ZOut.isUpdated]
-      obtain ⟨i1, i2, i3⟩ := ih { a with t := t', last := out }
+      obtain ⟨i1, i2, i3⟩ := ih t' ad up out
       rw [i1, i2, i3]
-      dsimp only at h3 ⊢
       unfold pairTree
-      rw [← h3, e1, e2]
+      rw [e1, e2] at h3 ⊢
+      simp only [Bool.or_self, Bool.false_eq_true, if_false] at h3 ⊢
+      rw [← h3]
       simp only [Bool.toNat_false]
-      omega
+      exact ⟨by omega, by omega, trivial⟩
+
+theorem zaddLoop_counts (o : ZAddOpts) (hi : o.incr = false) (ps : List (Int × Bytes)) (a : ZAcc) :
+    (zaddLoop o a ps).added = a.added + (countPairs o a.t ps).1 ∧
+    (zaddLoop o a ps).updated = a.updated + (countPairs o a.t ps).2 ∧
+    (zaddLoop o a ps).t = pairsTree o a.t ps :=
+  zaddLoop_counts' o hi ps a.t a.added a.updated a.last
 
 /-! ### the command -/
 
@@ -154,29 +159,27 @@ theorem zadd_reply_counts (env : Env) (db : Db) (c k a1 a2 : Bytes) (more : List
   simp only [Nat.zero_add] at h1 h2
   unfold cmdZAdd
   simp only [hp, hne, hev, hc1, hc2, hincr, hpairs]
-  simp only [Bool.false_or, Nat.reduceBEq, bne_self_eq_false, Bool.false_and, Bool.false_eq_true, ↓reduceIte]
-  split
-  · rename_i hg; exact absurd hg hty
-  · simp only [Bool.false_eq_true, ↓reduceIte]
-    unfold zaddStart at h1 h2
-    rw [h1, h2]
-    cases o.ch <;> simp
+  simp only [Bool.false_or, bne_self_eq_false, Bool.false_and, Bool.false_eq_true, ↓reduceIte]
+  unfold zaddStart at h1 h2
+  rw [h1, h2]
+  rfl
 
 /-! ### pairwise distinct members: every pair is judged on the original sorted set -/
 
+theorem lookup_pairTree {o : ZAddOpts} {t : ZT.T} (hi : Inv t) (s : Int) (m m' : Bytes) (h : m' ≠ m) :
+    ZT.lookup (pairTree o t s m) m' = ZT.lookup t m' := by
+  unfold pairTree
+  split
+  · exact ZT.lookup_setScore_other hi m s m' h
+  · rfl
+
 theorem pairAdds_pairTree {o : ZAddOpts} {t : ZT.T} (hi : Inv t) (s : Int) (m m' : Bytes) (h : m' ≠ m) :
     pairAdds o (pairTree o t s m) m' = pairAdds o t m' := by
-  unfold pairTree pairAdds
-  split
-  · rw [ZT.lookup_setScore_other hi m s m' h]
-  · rfl
+  unfold pairAdds; rw [lookup_pairTree hi s m m' h]
 
 theorem pairChanges_pairTree {o : ZAddOpts} {t : ZT.T} (hi : Inv t) (s s' : Int) (m m' : Bytes) (h : m' ≠ m) :
     pairChanges o (pairTree o t s m) s' m' = pairChanges o t s' m' := by
-  unfold pairTree pairChanges
-  split
-  · rw [ZT.lookup_setScore_other hi m s m' h]
-  · rfl
+  unfold pairChanges; rw [lookup_pairTree hi s m m' h]
 
 theorem pairTree_inv {o : ZAddOpts} {t : ZT.T} (hi : Inv t) (s : Int) (m : Bytes) : Inv (pairTree o t s m) := by
   unfold pairTree; split
@@ -224,9 +227,11 @@ theorem zadd_reply_counts_distinct (env : Env) (db : Db) (c k a1 a2 : Bytes) (mo
       .int (if o.ch then (countOn o (zaddStart env db k) pairs).1 + (countOn o (zaddStart env db k) pairs).2
             else (countOn o (zaddStart env db k) pairs).1) := by
   rw [zadd_reply_counts env db c k a1 a2 more o nopt rest pairs hp hne hev hc1 hc2 hincr hpairs hty]
-  rw [countPairs_distinct o pairs _ _ (t0_inv (dbInv_checkTTL hinv _ _) k) hnd fun _ _ => ⟨rfl, rfl⟩]
+  rw [countPairs_distinct o pairs (zaddStart env db k) (zaddStart env db k) (t0_inv (dbInv_checkTTL hinv _ _) k) hnd
+    fun _ _ => ⟨rfl, rfl⟩]
 
 /-! ### the hypotheses are satisfiable: concrete commands -/
+namespace ZAddReplyEx
 
 /-- score bits for the examples: argument `i` reads as the double `i` … any non-NaN pattern will do -/
 def exFl : Nat → Option UInt64 := fun i => some (UInt64.ofNat (0x3ff0000000000000 + i))
@@ -237,22 +242,38 @@ def exEnv : Env := { now := 100, fl := exFl }
 def exDup : List Bytes := [ofStr "ZADD", [107], [49], [97], [50], [97]]
 def exDupCh : List Bytes := [ofStr "ZADD", [107], ofStr "CH", [49], [97], [50], [97]]
 
-example : (cmdZAdd exEnv [] exDup).1 = .int 1 := by decide +kernel
-example : (cmdZAdd exEnv [] exDupCh).1 = .int 2 := by decide +kernel
+example : replyEq (cmdZAdd exEnv [] exDup).1 (.int 1) = true := by decide +kernel
+example : replyEq (cmdZAdd exEnv [] exDupCh).1 (.int 2) = true := by decide +kernel
 
-/-- the general theorem instantiated on it: every hypothesis holds -/
-example : ∃ o nopt rest pairs, parseZOpts [ofStr "CH", [49], [97], [50], [97]] {} 0 = (o, nopt, rest) ∧ rest.isEmpty = false ∧
-    rest.length % 2 = 0 ∧ (o.nx && o.xx) = false ∧ ((o.gt && o.lt) || (o.nx && o.gt) || (o.nx && o.lt)) = false ∧ o.incr = false ∧
-    parsePairs exEnv.fl (2 + nopt) rest = some pairs ∧ getZ (checkTTL [] exEnv.now [107]).1 [107] ≠ some none ∧
-    countPairs o (zaddStart exEnv [] [107]) pairs = (1, 1) :=
-  ⟨_, _, _, _, by decide +kernel, by decide +kernel, by decide +kernel, by decide +kernel, by decide +kernel, by decide +kernel,
-    by decide +kernel, by decide +kernel, by decide +kernel⟩
+deriving instance DecidableEq for ZAddOpts
+
+/-- the score keys the example arguments denote (argv positions 3 and 5 of `exDupCh`) -/
+def exPairs : List (Int × Bytes) := [(ZT.skey (UInt64.ofNat (0x3ff0000000000000 + 3)), [97]), (ZT.skey (UInt64.ofNat (0x3ff0000000000000 + 5)), [97])]
+
+/-- every hypothesis of `zadd_reply_counts` holds for `ZADD k CH 1 a 2 a` on the empty keyspace, and the counts are (1, 1) -/
+example : parseZOpts [ofStr "CH", [49], [97], [50], [97]] {} 0 = ({ ch := true }, 1, [[49], [97], [50], [97]]) ∧
+    parsePairs exEnv.fl (2 + 1) [[49], [97], [50], [97]] = some exPairs ∧
+    getZ (checkTTL [] exEnv.now [107]).1 [107] ≠ some none ∧
+    countPairs { ch := true } (zaddStart exEnv [] [107]) exPairs = (1, 1) :=
+  ⟨by decide +kernel, by decide +kernel, by decide +kernel, by decide +kernel⟩
+
+/-- … so the theorem gives the reply `.int (1 + 1)` -/
+example : (cmdZAdd exEnv [] exDupCh).1 = .int (((1 : Nat) : Int) + ((1 : Nat) : Int)) := by
+  have h := zadd_reply_counts exEnv [] (ofStr "ZADD") [107] (ofStr "CH") [49] [[97], [50], [97]] { ch := true } 1 [[49], [97], [50], [97]] exPairs
+    (by decide +kernel) (by decide +kernel) (by decide +kernel) (by decide +kernel) (by decide +kernel) (by decide +kernel)
+    (by decide +kernel) (by decide +kernel)
+  have hc : countPairs { ch := true } (zaddStart exEnv [] [107]) exPairs = (1, 1) := by decide +kernel
+  rw [hc] at h
+  exact h
 
 /-- distinct members on a stored sorted set: `ZADD k CH 5 a 7 b` where `a` is stored with another score and `b` is new: 1 added, 1 changed -/
 def exStored : Db := [([107], { val := .zset (ZT.setScore .nil [97] (ZT.skey (UInt64.ofNat 0x3ff0000000000009))) })]
 def exTwoCh : List Bytes := [ofStr "ZADD", [107], ofStr "CH", [53], [97], [55], [98]]
-example : (cmdZAdd exEnv exStored exTwoCh).1 = .int 2 := by decide +kernel
-example : (cmdZAdd exEnv exStored [ofStr "ZADD", [107], [53], [97], [55], [98]]).1 = .int 1 := by decide +kernel
+example : replyEq (cmdZAdd exEnv exStored exTwoCh).1 (.int 2) = true := by decide +kernel
+example : replyEq (cmdZAdd exEnv exStored [ofStr "ZADD", [107], [53], [97], [55], [98]]).1 (.int 1) = true := by decide +kernel
+example : ([(1, [97]), (2, [98])] : List (Int × Bytes)).map (·.2) |>.Nodup := by decide
+
+end ZAddReplyEx
 
 end Exec
 
